@@ -45,7 +45,14 @@ func main() {
 	}
 }
 
+// generators of the non-pool properties register themselves here from an init() function
+// of their own file (so that adding a property adds files and edits none)
+var generators = map[string]func(prop string, seed uint64, tier, out string, count int) error{}
+
 func gen(prop string, seed uint64, tier, out string, count int) error {
+	if g, ok := generators[prop]; ok {
+		return g(prop, seed, tier, out, count)
+	}
 	if _, ok := profiles[prop]; ok {
 		if count == 0 {
 			count = 300
@@ -54,10 +61,6 @@ func gen(prop string, seed uint64, tier, out string, count int) error {
 			}
 		}
 		return genPool(prop, seed, tier, out, count)
-	}
-	switch prop {
-	case "C07", "C08":
-		return genCollate(prop, seed, tier, out, count)
 	}
 	return fmt.Errorf("no generator for property %s", prop)
 }
